@@ -431,6 +431,8 @@ def target_getter(w, tgt):
 
     def getter(v):
         return data.get_mask(state) if v is None else data.get_mask(state, view=v)
+    getter.state = state
+    getter.data = data
     if isinstance(spec, str):
         return getter, w.sels[spec][1], [('attr', a) for a in w.sels[spec][2]], w.sels[spec][1] in ONLY_1D
     return (getter, 'composite:' + spec[0], [('sel', k) for k in spec[1:]],
@@ -513,6 +515,33 @@ def eval_target(res, shape, coords, tgt, vencs, base_index=0, stride=1):
         sym = st if st.startswith('raises') else 'wrong'
         res.violation('%s-view' % obs, '%s|%s|%s|%s' % (obs, dep, vc, sym), dict(case0, view=venc), got, exp,
                       'target %s, %d-d data, view class %s, symptom %s' % (tgt[1], len(shape), vc, st))
+    # the MEMBERS of a composite selection, asked on their own after the composite was evaluated with views,
+    # must still give view == full[view] (a composite that writes into a member's cached mask breaks exactly this)
+    st = getattr(getter, 'state', None)
+    if st is not None and tgt[0] != 'attr' and not isinstance(tgt[1], str):
+        def members(x):
+            return list(getattr(x, 'states', None) or [m for m in (getattr(x, 'state1', None),
+                                                                  getattr(x, 'state2', None)) if m is not None])
+        ref_members = members(getattr(getter_ref, 'state', None))
+        for mi, (m, mr) in enumerate(zip(members(st), ref_members)):
+            try:
+                mfull = np.asarray(wref.d.get_mask(mr))
+            except Exception:
+                continue
+            for k in order[:12]:
+                venc = vencs[k]
+                v = dec_view(venc)
+                try:
+                    exp = mfull if v is None else mfull[v]
+                    got = np.asarray(getter.data.get_mask(m) if v is None else getter.data.get_mask(m, view=v))
+                except Exception:
+                    continue
+                res.case()
+                if np.ndim(exp) > 0 and symptom(got, exp) is not None:
+                    res.violation('mask-view', 'mask|%s|member-after-composite|wrong' % dep,
+                                  dict(case0, view=venc, member=mi), jl(got), jl(exp),
+                                  'member %d of the composite, evaluated on its own after the composite' % mi)
+                    break
     # the unviewed result must not have been altered by the viewed requests (memo aliasing)
     try:
         again = np.asarray(getter(None))
